@@ -2,10 +2,11 @@
 
 Proof: Poly/Props/C15.lean — for ALL handler programs over the primitive effects (get/put/delete/notify/putMerkleVal/
 nativeCall/checkWitness/...), all registries, prior states and signers: failed_tx_no_trace, ok_tx_keeps_all,
-cache_reset_isolates, isolation, block_result_fn, handler_cannot_touch_overlay, model_fuel_sufficient (model:
+cache_reset_isolates, isolation, block_result_fn, handler_cannot_touch_overlay, panicked_tx_aborts_block,
+panicked_tx_not_successful, model_fuel_sufficient (model:
 Poly/Model/Native.lean).
 Tie: correspondence stream `atomic` — harness hnative registers a scripted test contract in native.Contracts and runs
-real blocks (mixing succeeding and failing transactions, failures injected at every step, nested calls, the context
+real blocks (mixing succeeding and failing transactions, failures and runtime panics injected at every step, nested calls, the context
 limit) through the real ExecuteBlock/AddBlock/SubmitBlock on a real ledger (including the consensus interleaving: a held
 ExecuteResult must survive the execution of other candidate blocks); the compiled Lean model (drv_native) executes the same
 op lines; write set, digest, cross hashes, cross root, events and what every transaction read are compared.
